@@ -3,6 +3,7 @@
 package cache
 
 import (
+	"context"
 	"net/netip"
 	"time"
 
@@ -100,3 +101,6 @@ func VerifC19Forge(c *Cache, q dns.Question, cd bool, from, to netip.Prefix) boo
 	c.positive.Set(CacheKey{Question: q, CD: cd, Scope: to}.Hash(), e)
 	return true
 }
+
+// VerifC19WithBypass installs the cache's request-tree marker (withSharedDenialBypass).
+func VerifC19WithBypass(ctx context.Context) context.Context { return withSharedDenialBypass(ctx) }
